@@ -32,6 +32,11 @@ NullPair(p)  == Stmt(<<Kw("var"), Id("_"), Op("="), Id("T"),
                        Grp("values", <<Dict(<<Pair(Qual(p, Sym(p)), Stmt(<<NullT>>))>>, <<1>>)>>)>>)
 LivePair(p, q) == Stmt(<<Kw("var"), Id("_"), Op("="), Id("T"),
                        Grp("values", <<Dict(<<Pair(Qual(p, Sym(p)), Qual(q, Sym(q)))>>, <<1>>)>>)>>)
+\* a Dict that IS rendered (one live pair) next to a pair that is omitted: the omitted pair's key must not be imported
+MixedPair(p, q) == Stmt(<<Kw("var"), Id("_"), Op("="), Id("T"),
+                       Grp("values", <<Dict(<<Pair(Stmt(<<LitT("1")>>), Qual(p, Sym(p))), Pair(Qual(q, Sym(q)), Stmt(<<NullT>>))>>, <<1, 2>>)>>)>>)
+MixedPairRev(p, q) == Stmt(<<Kw("var"), Id("_"), Op("="), Id("T"),
+                       Grp("values", <<Dict(<<Pair(Qual(q, Sym(q)), Stmt(<<NullT>>)), Pair(Stmt(<<LitT("1")>>), Qual(p, Sym(p)))>>, <<2, 1>>)>>)>>)
 CaseRef(p)   == Stmt(<<Kw("func"), Id("f" \o Sym(p)), Grp("params", <<>>),
                        Grp("block", <<Stmt(<<Grp("switch", <<>>), Grp("block",
                           <<Stmt(<<Grp("case", <<Qual(p, Sym(p))>>), Grp("block", <<Qual(p, Sym(p))>>)>>)>>)>>)>>)>>)
@@ -39,6 +44,7 @@ CaseRef(p)   == Stmt(<<Kw("func"), Id("f" \o Sym(p)), Grp("params", <<>>),
 BodyRefs     == {VarQ(p) : p \in Paths}
 BodyNulls    == {VarQ(p) : p \in Paths} \cup {NullPair(p) : p \in Paths}
                 \cup {LivePair(p, q) : p, q \in Paths} \cup {CaseRef(p) : p \in Paths}
+                \cup {MixedPair(p, q) : p, q \in Paths} \cup {MixedPairRev(p, q) : p \in Paths, q \in Paths \ {p}}
 Frags        == {Stmt(<<Id("x"), Op("="), QualG(p, Sym(p))>>) : p \in Paths}
 NoFrags      == {}
 Meta0 == {[headers |-> <<>>, comments |-> <<>>, canonical |-> ""]}
